@@ -23,7 +23,7 @@ def num(n):
     return {"neg": neg, "mag": mag}
 
 
-def record(seed, ntraces, nev):
+def record(seed, ntraces, nev, nwide=0):
     import probables as P
     import probables.blooms.countingbloom as cbm
     import probables.constants as C
@@ -36,7 +36,26 @@ def record(seed, ntraces, nev):
     keys = ["a", "b", "c"]
     for ti in range(ntraces):
         kind = "cbloom" if ti % 2 == 0 else "cms"
-        if kind == "cbloom":
+        wide = ti < nwide      # a few wide structures: block-wise merge code only shows past 1024 / 8192 cells
+        if kind == "cbloom" and wide:
+            M, K = rnd.choice([(1918, 7), (2876, 7)])     # GEOM below supplies the constructor arguments
+            table = {k: tuple(rnd.randint(0, 5 * M) for _ in range(K)) for k in keys}
+            hf = make_hash(table)
+            est, fpr = {1918: (200, 0.01), 2876: (300, 0.01)}[M]
+            mk = lambda: P.CountingBloomFilter(est_elements=est, false_positive_rate=fpr, hash_function=hf)  # noqa
+            assert mk().number_bits == M and mk().number_hashes == K
+            pos = [[table[k][i] % M for i in range(K)] for k in keys]
+            w, d = M, 1
+            cells_of = lambda o: list(o.bloom)  # noqa
+        elif kind == "cms" and wide:
+            W, D = rnd.choice([(3000, 3), (4500, 2)])
+            table = {k: tuple(rnd.randint(0, 5 * W) for _ in range(D)) for k in keys}
+            hf = make_hash(table)
+            mk = lambda: P.CountMinSketch(width=W, depth=D, hash_function=hf)  # noqa
+            pos = [[(table[k][i] % W) + i * W for i in range(D)] for k in keys]
+            w, d = W, D
+            cells_of = lambda o: list(struct.unpack(f"{W * D}i", bytes(o)[: 4 * W * D]))  # noqa
+        elif kind == "cbloom":
             M, K = rnd.choice([(3, 2), (4, 3), (5, 2), (8, 2)])
             table = {k: tuple(rnd.randint(0, 2 * M) for _ in range(K)) for k in keys}
             if rnd.random() < 0.5:
@@ -148,7 +167,7 @@ def validate(traces, timeout=1200):
 def run(focus, tier, seed):
     total = Tally(focus)
     ntr, nev, nb = (120, 8, 8) if tier == "quick" else (3000, 10, 15)
-    traces = record(seed + 1616, ntr, nev)
+    traces = record(seed + 1616, ntr, nev, nwide=8 if tier == "quick" else 40)
     import concurrent.futures as cf
 
     chunks = [traces[i::nb] for i in range(nb)]
